@@ -182,7 +182,7 @@ class Average(Factory, Container):
 
         if math.isinf(ca_plus_cb):
             self.mean = float("nan")
-        elif ca_plus_cb > 0.0:
+        elif ca_plus_cb > ca:  # the batch contributed weight (else nothing changes and the mean of no rows is undefined)
             mb = numpy.average(q, weights=weights)
             self.mean = float((ca * ma + (ca_plus_cb - ca) * mb) / ca_plus_cb)
 
